@@ -40,7 +40,40 @@ def main(argv=None):
         err = "%s: %s" % (type(e).__name__, e)
     code = report.finish(run, err)
     sys.stdout.flush()
+    if a.tier == "thorough" and code == 0 and rule is None and os.environ.get("VERIF_NO_SELFTEST") != "1":
+        code = variant_suite(pid, a.root)
     return code
+
+
+def variant_suite(pid, root):
+    """thorough tier: the both-ways variant suite of this property against the current tree (each variant is an edit of a
+    scratch copy, removed afterwards).  A breaking variant that is not reported or a preserving one that is means the
+    checker cannot be trusted on this tree: exit 2."""
+    import subprocess
+    verif = os.path.dirname(os.path.dirname(os.path.abspath(__file__)))
+    env = dict(os.environ, VERIF_ROOT=root)
+    p = subprocess.run([sys.executable, "-B", os.path.join(verif, "selftest", "run.py"), pid, "--stale-ok"],
+                       stdout=subprocess.PIPE, stderr=subprocess.STDOUT, env=env, cwd=verif)
+    out = p.stdout.decode(errors="replace")
+    tail = [l for l in out.splitlines() if l.startswith("selftest:")]
+    line = tail[-1] if tail else "selftest: no summary"
+    print("   thorough: %s" % line)
+    ev = os.path.join(verif, "evidence", "%s.json" % pid)
+    canonical = os.path.abspath(root) == os.path.abspath(os.environ.get("VERIF_CANONICAL_ROOT", "/repo"))
+    if canonical and os.environ.get("VERIF_NO_EVIDENCE") != "1" and os.path.exists(ev):
+        try:
+            with open(ev) as f:
+                d = json.load(f)
+            d["coverage"].setdefault("notes", []).append("thorough tier variant suite: " + line)
+            with open(ev, "w") as f:
+                json.dump(d, f, indent=1)
+        except Exception:
+            pass
+    if p.returncode != 0:
+        print(out[-3000:])
+        print("ANALYSIS-ERROR property=%s the variant suite is not as expected on this tree: the checker's verdict is not trusted" % pid)
+        return 2
+    return 0
 
 
 if __name__ == "__main__":
